@@ -3,14 +3,25 @@ import FsnVerif.Proofs.KqFullLemmas
 # Frame reasoning for the full kqueue model: what an operation can NOT do
 
 `Rel R m`: every run of `m` relates the world before to the world after by `R`. For a reflexive,
-transitive `R` that all the state-changing primitives respect (`Frame R`), every composite function
-of the backend respects it — one traversal of the control flow, reused for several relations
-("delivers nothing", "adds no user path", …).
+transitive `R` that the state-changing primitives respect, every composite function of the backend
+respects it — one traversal of the control flow, reused for several relations ("delivers nothing",
+"adds no user path", "forgets nothing it has seen"). `FrameAdd` asks for what the adding side
+(`addWatch` and everything below it) does to the state; `Frame` also for what removals do.
 -/
 namespace KqF
 open Fsn
 
 def Rel {α : Type} (R : W → W → Prop) (m : M α) : Prop := ∀ w : W, R w (m w).2
+
+/-- what the ADDING side does: it reads the tape, opens descriptors, and changes the tables in ways that
+keep the user set and the closed flag and never shrink the seen set -/
+structure FrameAdd (R : W → W → Prop) : Prop where
+  refl : ∀ w, R w w
+  trans : ∀ a b c, R a b → R b c → R a c
+  tape : ∀ (w : W) (t : List Ans) (b : Option String), R w { w with tape := t, bad := b }
+  opened : ∀ (w : W) (t : List Ans) (fd : Nat), R w { w with tape := t, s := { w.s with openFds := fd :: w.s.openFds } }
+  grow : ∀ (w : W) (s' : KS), (∀ p, p ∈ w.s.seen → p ∈ s'.seen) → s'.byUser = w.s.byUser → s'.closed = w.s.closed →
+    R w { w with s := s' }
 
 structure Frame (R : W → W → Prop) : Prop where
   refl : ∀ w, R w w
@@ -22,19 +33,31 @@ structure Frame (R : W → W → Prop) : Prop where
     R w { w with s := s' }
   closing : ∀ (w : W), R w { w with s := { w.s with closed := true } }
 
-theorem Rel.pure {α : Type} {R : W → W → Prop} (f : Frame R) (a : α) : Rel R (pure a : M α) := fun w => f.refl w
+theorem Frame.toAdd {R : W → W → Prop} (F : Frame R) : FrameAdd R where
+  refl := F.refl
+  trans := F.trans
+  tape := F.tape
+  opened := F.opened
+  grow := fun w s' _ hu hc => F.tables w s' (Or.inl hu) hc
 
-theorem Rel.bind {α β : Type} {R : W → W → Prop} (f : Frame R) {m : M α} {k : α → M β}
+theorem Rel.pure {α : Type} {R : W → W → Prop} (f : FrameAdd R) (a : α) : Rel R (pure a : M α) := fun w => f.refl w
+
+theorem Rel.bind {α β : Type} {R : W → W → Prop} (f : FrameAdd R) {m : M α} {k : α → M β}
     (h1 : Rel R m) (h2 : ∀ a, Rel R (k a)) : Rel R (m >>= k) := by
   intro w
   simp only [bind_apply]
   exact f.trans _ _ _ (h1 w) (h2 _ _)
 
-theorem Rel.ofPure {α : Type} {R : W → W → Prop} (f : Frame R) {m : M α} (h : ∀ w, (m w).2 = w) : Rel R m := by
+theorem Rel.ofPure {α : Type} {R : W → W → Prop} (f : FrameAdd R) {m : M α} (h : ∀ w, (m w).2 = w) : Rel R m := by
   intro w; rw [h w]; exact f.refl w
 
-section prims
-variable {R : W → W → Prop} (f : Frame R)
+theorem mem_setInsert {p q : Path} {l : List Path} (h : p ∈ l) : p ∈ setInsert q l := by
+  unfold setInsert; split
+  · exact h
+  · exact List.mem_append_left _ h
+
+section addprims
+variable {R : W → W → Prop} (f : FrameAdd R)
 include f
 
 theorem rel_get : Rel R get := Rel.ofPure f (fun _ => rfl)
@@ -72,30 +95,24 @@ theorem rel_askOpen (p : Path) : Rel R (askOpen p) := by
     · exact f.tape w w.tape _
   · exact f.tape w w.tape _
 
-theorem rel_modify (g : KS → KS) (hu : ∀ s, (g s).byUser = s.byUser ∨ ∃ p, (g s).byUser = s.byUser.filter (· != p))
+theorem rel_modifyGrow (g : KS → KS) (hs : ∀ s p, p ∈ s.seen → p ∈ (g s).seen) (hu : ∀ s, (g s).byUser = s.byUser)
     (hc : ∀ s, (g s).closed = s.closed) : Rel R (modify g) :=
-  fun w => f.tables w (g w.s) (hu w.s) (hc w.s)
+  fun w => f.grow w (g w.s) (hs w.s) (hu w.s) (hc w.s)
 
-theorem rel_closeFd (fd : Nat) : Rel R (closeFd fd) := rel_modify f _ (fun _ => Or.inl rfl) (fun _ => rfl)
-theorem rel_addLink (p : Path) (fd : Nat) : Rel R (addLink p fd) := rel_modify f _ (fun _ => Or.inl rfl) (fun _ => rfl)
+theorem rel_closeFd (fd : Nat) : Rel R (closeFd fd) := rel_modifyGrow f _ (fun _ _ h => h) (fun _ => rfl) (fun _ => rfl)
+theorem rel_addLink (p : Path) (fd : Nat) : Rel R (addLink p fd) :=
+  rel_modifyGrow f _ (fun _ _ h => mem_setInsert h) (fun _ => rfl) (fun _ => rfl)
 theorem rel_watchesAdd (p l : Path) (fd : Nat) (d : Bool) : Rel R (watchesAdd p l fd d) :=
-  rel_modify f _ (fun _ => Or.inl rfl) (fun _ => rfl)
-theorem rel_markSeen (p : Path) (b : Bool) : Rel R (markSeen p b) := rel_modify f _ (fun _ => Or.inl rfl) (fun _ => rfl)
+  rel_modifyGrow f _ (fun _ _ h => h) (fun _ => rfl) (fun _ => rfl)
+theorem rel_markSeenTrue (p : Path) : Rel R (markSeen p true) :=
+  rel_modifyGrow f _ (fun _ _ h => mem_setInsert h) (fun _ => rfl) (fun _ => rfl)
 
 theorem rel_registerAdd (fd : Nat) (fl : BitVec 32) : Rel R (registerAdd fd fl) := by
   unfold registerAdd
   refine Rel.bind f (rel_get f) ?_
   intro s
   split
-  · exact Rel.bind f (rel_modify f _ (fun _ => Or.inl rfl) (fun _ => rfl)) (fun _ => Rel.pure f _)
-  · exact Rel.pure f _
-
-theorem rel_registerDelete (fd : Nat) : Rel R (registerDelete fd) := by
-  unfold registerDelete
-  refine Rel.bind f (rel_get f) ?_
-  intro s
-  split
-  · exact Rel.bind f (rel_modify f _ (fun _ => Or.inl rfl) (fun _ => rfl)) (fun _ => Rel.pure f _)
+  · exact Rel.bind f (rel_modifyGrow f _ (fun _ _ h => h) (fun _ => rfl) (fun _ => rfl)) (fun _ => Rel.pure f _)
   · exact Rel.pure f _
 
 theorem rel_byPath (n : Path) : Rel R (byPath n) := by
@@ -109,6 +126,7 @@ theorem rel_byWd (fd : Nat) : Rel R (byWd fd) := by
   cases alLookup fd w.s.wd <;> rfl
 
 theorem rel_seenBefore (p : Path) : Rel R (seenBefore p) := Rel.ofPure f (fun _ => rfl)
+
 theorem rel_watchesInDir (p : Path) : Rel R (watchesInDir p) := Rel.ofPure f (fun _ => rfl)
 
 theorem rel_updateDirFlags (p : Path) (fl : BitVec 32) : Rel R (updateDirFlags p fl) := by
@@ -117,13 +135,7 @@ theorem rel_updateDirFlags (p : Path) (fl : BitVec 32) : Rel R (updateDirFlags p
   intro s
   split
   · exact Rel.pure f _
-  · exact Rel.bind f (rel_modify f _ (fun _ => Or.inl rfl) (fun _ => rfl)) (fun _ => Rel.pure f _)
-
-theorem rel_watchesRemove (fd : Nat) (p : Path) : Rel R (watchesRemove fd p) := by
-  unfold watchesRemove
-  refine Rel.bind f (rel_get f) ?_
-  intro s
-  exact Rel.bind f (rel_modify f _ (fun _ => Or.inr ⟨p, rfl⟩) (fun _ => rfl)) (fun _ => Rel.pure f _)
+  · exact Rel.bind f (rel_modifyGrow f _ (fun _ _ h => h) (fun _ => rfl) (fun _ => rfl)) (fun _ => Rel.pure f _)
 
 theorem rel_forUntil {α β : Type} (g : α → M (Option β)) (h : ∀ x, Rel R (g x)) (xs : List α) : Rel R (forUntil g xs) := by
   induction xs with
@@ -136,11 +148,11 @@ theorem rel_forUntil {α β : Type} (g : α → M (Option β)) (h : ∀ x, Rel R
     | none => exact ih
     | some r => exact Rel.pure f _
 
-end prims
+end addprims
 
-/-! ## one traversal of the control flow -/
-section composite
-variable {R : W → W → Prop} (f : Frame R)
+/-! ## the adding side, one traversal -/
+section addside
+variable {R : W → W → Prop} (f : FrameAdd R)
 include f
 
 theorem rel_followLink (name : Path) (info0 : KW) : Rel R (followLink name info0) := by
@@ -248,9 +260,9 @@ theorem rel_watchDirectoryFiles (aw : AddWatch) (h : ∀ n fl l, Rel R (aw n fl 
     · refine Rel.bind f (rel_internalWatch f aw h _ _) ?_
       intro r
       split
-      · exact Rel.bind f (rel_markSeen f _ _) (fun _ => Rel.pure f _)
+      · exact Rel.bind f (rel_markSeenTrue f _) (fun _ => Rel.pure f _)
       · exact Rel.pure f _
-      · exact Rel.bind f (rel_markSeen f _ _) (fun _ => Rel.pure f _)
+      · exact Rel.bind f (rel_markSeenTrue f _) (fun _ => Rel.pure f _)
 
 theorem rel_addWatch (fuel : Nat) : ∀ n fl l, Rel R (addWatch fuel n fl l) := by
   induction fuel with
@@ -281,7 +293,37 @@ theorem rel_addWatch (fuel : Nat) : ∀ n fl l, Rel R (addWatch fuel n fl l) := 
           obtain ⟨name, info, already⟩ := v
           exact rel_finishAdd f _ hw _ _ _ _
 
+end addside
+
+/-! ## removals, `Close` and the reader (full `Frame`) -/
+section rmside
+variable {R : W → W → Prop} (F : Frame R)
+include F
+
+theorem rel_modify (g : KS → KS) (hu : ∀ s, (g s).byUser = s.byUser ∨ ∃ p, (g s).byUser = s.byUser.filter (· != p))
+    (hc : ∀ s, (g s).closed = s.closed) : Rel R (modify g) :=
+  fun w => F.tables w (g w.s) (hu w.s) (hc w.s)
+
+theorem rel_markSeen (p : Path) (b : Bool) : Rel R (markSeen p b) := rel_modify F _ (fun _ => Or.inl rfl) (fun _ => rfl)
+
+theorem rel_registerDelete (fd : Nat) : Rel R (registerDelete fd) := by
+  have f := F.toAdd
+  unfold registerDelete
+  refine Rel.bind f (rel_get f) ?_
+  intro s
+  split
+  · exact Rel.bind f (rel_modify F _ (fun _ => Or.inl rfl) (fun _ => rfl)) (fun _ => Rel.pure f _)
+  · exact Rel.pure f _
+
+theorem rel_watchesRemove (fd : Nat) (p : Path) : Rel R (watchesRemove fd p) := by
+  have f := F.toAdd
+  unfold watchesRemove
+  refine Rel.bind f (rel_get f) ?_
+  intro s
+  exact Rel.bind f (rel_modify F _ (fun _ => Or.inr ⟨p, rfl⟩) (fun _ => rfl)) (fun _ => Rel.pure f _)
+
 theorem rel_rm (fuel : Nat) : ∀ name unwatch, Rel R (rm fuel name unwatch) := by
+  have f := F.toAdd
   induction fuel with
   | zero =>
     intro name unwatch
@@ -297,14 +339,14 @@ theorem rel_rm (fuel : Nat) : ∀ name unwatch, Rel R (rm fuel name unwatch) := 
     simp only []
     split
     · exact Rel.pure f _
-    · refine Rel.bind f (rel_registerDelete f _) ?_
+    · refine Rel.bind f (rel_registerDelete F _) ?_
       intro r
       cases r with
       | error e => exact Rel.pure f _
       | ok u =>
         refine Rel.bind f (rel_closeFd f _) ?_
         intro _
-        refine Rel.bind f (rel_watchesRemove f _ _) ?_
+        refine Rel.bind f (rel_watchesRemove F _ _) ?_
         intro isDir
         split
         · refine Rel.bind f (rel_watchesInDir f _) ?_
@@ -319,33 +361,36 @@ theorem rel_rm (fuel : Nat) : ∀ name unwatch, Rel R (rm fuel name unwatch) := 
         · exact Rel.pure f _
 
 theorem rel_remove (name : Path) (unwatch : Bool) : Rel R (remove name unwatch) := by
+  have f := F.toAdd
   unfold remove
   refine Rel.bind f (rel_get f) ?_
   intro s0
   split
   · exact Rel.pure f _
-  · exact rel_rm f _ _ _
+  · exact rel_rm F _ _ _
 
 theorem rel_close : Rel R close := by
+  have f := F.toAdd
   unfold close
   refine Rel.bind f (rel_get f) ?_
   intro s0
   split
   · exact Rel.pure f _
-  · refine Rel.bind f (m := modify fun s => { s with closed := true }) (fun w => f.closing w) ?_
+  · refine Rel.bind f (m := modify fun s => { s with closed := true }) (fun w => F.closing w) ?_
     intro _
     refine Rel.bind f (rel_forUntil f _ ?_ _) (fun _ => Rel.pure f _)
     intro p
-    exact Rel.bind f (rel_rm f _ _ _) (fun _ => Rel.pure f _)
+    exact Rel.bind f (rel_rm F _ _ _) (fun _ => Rel.pure f _)
 
-end composite
+end rmside
 
 /-! ## the reader's side (needs the relation to tolerate deliveries) -/
 section reader
-variable {R : W → W → Prop} (f : Frame R) (hev : ∀ e, Rel R (sendEvent e)) (her : ∀ e, Rel R (sendError e))
-include f hev her
+variable {R : W → W → Prop} (F : Frame R) (hev : ∀ e, Rel R (sendEvent e)) (her : ∀ e, Rel R (sendError e))
+include F hev her
 
 theorem rel_announce (p : Path) : Rel R (announce p) := by
+  have f := F.toAdd
   unfold announce
   refine Rel.bind f (rel_seenBefore f _) ?_
   intro b
@@ -354,8 +399,9 @@ theorem rel_announce (p : Path) : Rel R (announce p) := by
   · exact Rel.pure f _
 
 theorem rel_sendCreateIfNew (p : Path) (k : Kind) : Rel R (sendCreateIfNew p k) := by
+  have f := F.toAdd
   unfold sendCreateIfNew
-  refine Rel.bind f (rel_announce f hev her _) ?_
+  refine Rel.bind f (rel_announce F hev her _) ?_
   intro c
   split
   · exact Rel.pure f _
@@ -363,9 +409,10 @@ theorem rel_sendCreateIfNew (p : Path) (k : Kind) : Rel R (sendCreateIfNew p k) 
     intro r
     cases r with
     | error e => exact Rel.pure f _
-    | ok w => exact Rel.bind f (rel_markSeen f _ _) (fun _ => Rel.pure f _)
+    | ok w => exact Rel.bind f (rel_markSeen F _ _) (fun _ => Rel.pure f _)
 
 theorem rel_dirChange (d : Path) : Rel R (dirChange d) := by
+  have f := F.toAdd
   unfold dirChange
   refine Rel.bind f (rel_askReadDir f _) ?_
   intro r
@@ -377,23 +424,26 @@ theorem rel_dirChange (d : Path) : Rel R (dirChange d) := by
     split
     · exact Rel.pure f _
     · exact Rel.pure f _
-    · refine Rel.bind f (rel_sendCreateIfNew f hev her _ _) ?_
+    · refine Rel.bind f (rel_sendCreateIfNew F hev her _ _) ?_
       intro r
       split <;> exact Rel.pure f _
 
 theorem rel_dropIfGone (e : Ev) : Rel R (dropIfGone e) := by
+  have f := F.toAdd
   unfold dropIfGone
   split
-  · exact Rel.bind f (rel_remove f _ _) (fun _ => rel_markSeen f _ _)
+  · exact Rel.bind f (rel_remove F _ _) (fun _ => rel_markSeen F _ _)
   · exact Rel.pure f _
 
 theorem rel_deliver (p : KW) (e : Ev) : Rel R (deliver p e) := by
+  have f := F.toAdd
   unfold deliver
   split
-  · exact Rel.bind f (rel_dirChange f hev her _) (fun _ => Rel.pure f _)
+  · exact Rel.bind f (rel_dirChange F hev her _) (fun _ => Rel.pure f _)
   · exact hev _
 
 theorem rel_afterRemove (p : KW) (e : Ev) : Rel R (afterRemove p e) := by
+  have f := F.toAdd
   unfold afterRemove
   split
   · split
@@ -402,42 +452,45 @@ theorem rel_afterRemove (p : KW) (e : Ev) : Rel R (afterRemove p e) := by
       obtain ⟨a, found⟩ := x
       simp only []
       split
-      · exact Rel.bind f (rel_dirChange f hev her _) (fun _ => her _)
+      · exact Rel.bind f (rel_dirChange F hev her _) (fun _ => her _)
       · exact Rel.pure f _
     · refine Rel.bind f (rel_askLstat f _) ?_
       intro r
       cases r with
       | error e => exact Rel.pure f _
-      | ok fi => exact Rel.bind f (rel_sendCreateIfNew f hev her _ _) (fun _ => her _)
+      | ok fi => exact Rel.bind f (rel_sendCreateIfNew F hev her _ _) (fun _ => her _)
   · exact Rel.pure f _
 
 theorem rel_handleKevent (fd : Nat) (m : BitVec 32) : Rel R (handleKevent fd m) := by
+  have f := F.toAdd
   unfold handleKevent
   refine Rel.bind f (rel_byWd f _) ?_
   intro x
   obtain ⟨p, ok⟩ := x
   simp only []
-  refine Rel.bind f (rel_dropIfGone f hev her _) ?_
+  refine Rel.bind f (rel_dropIfGone F hev her _) ?_
   intro _
-  refine Rel.bind f (rel_deliver f hev her _ _) ?_
+  refine Rel.bind f (rel_deliver F hev her _ _) ?_
   intro c
   split
   · exact Rel.pure f _
-  · exact rel_afterRemove f hev her _ _
+  · exact rel_afterRemove F hev her _ _
 
 theorem rel_handleBatch (evs : List (Nat × BitVec 32)) : Rel R (handleBatch evs) := by
+  have f := F.toAdd
   induction evs with
   | nil => exact Rel.pure f _
   | cons e rest ih =>
     obtain ⟨fd, m⟩ := e
     unfold handleBatch
-    refine Rel.bind f (rel_handleKevent f hev her _ _) ?_
+    refine Rel.bind f (rel_handleKevent F hev her _ _) ?_
     intro b
     split
     · exact ih
     · exact Rel.pure f _
 
 theorem rel_reader (n : Nat) : Rel R (reader n) := by
+  have f := F.toAdd
   induction n with
   | zero => exact Rel.pure f _
   | succ n ih =>
@@ -445,7 +498,7 @@ theorem rel_reader (n : Nat) : Rel R (reader n) := by
     unfold reader
     split
     · rename_i evs t hw
-      have h1 := rel_handleBatch f hev her evs { w with tape := t }
+      have h1 := rel_handleBatch F hev her evs { w with tape := t }
       have h0 : R w { w with tape := t } := f.tape w t w.bad
       dsimp only
       split
@@ -485,7 +538,6 @@ theorem frame_noNewUser : Frame NoNewUser where
       exact (List.mem_filter.mp this).1
   closing := fun _ _ h => h
 
-
 theorem noNewUser_sendEvent (e : Ev) : Rel NoNewUser (sendEvent e) := by
   intro w p hp; unfold sendEvent at hp; split at hp <;> (try split at hp) <;> exact hp
 
@@ -495,18 +547,18 @@ theorem noNewUser_sendError (e : Option Err) : Rel NoNewUser (sendError e) := by
 /-- `Add` delivers nothing: nothing that exists when a watch is added is reported -/
 theorem add_silent (name : Path) : Rel Silent (add name) := by
   unfold add
-  refine Rel.bind frame_silent (rel_addWatch frame_silent _ _ _ _) ?_
+  refine Rel.bind frame_silent.toAdd (rel_addWatch frame_silent.toAdd _ _ _ _) ?_
   intro r
   cases r with
-  | error e => exact Rel.pure frame_silent _
-  | ok p => exact Rel.bind frame_silent (fun _ => ⟨rfl, rfl⟩) (fun _ => Rel.pure frame_silent _)
+  | error e => exact Rel.pure frame_silent.toAdd _
+  | ok p => exact Rel.bind frame_silent.toAdd (fun _ => ⟨rfl, rfl⟩) (fun _ => Rel.pure frame_silent.toAdd _)
 
 /-- `Add` makes at most its own (cleaned) argument a user path -/
 theorem add_user (name : Path) (w : W) : ∀ p, p ∈ (add name w).2.s.byUser → p ∈ w.s.byUser ∨ p = clean name := by
   intro p hp
   unfold add at hp
   simp only [bind_apply] at hp
-  have h1 := rel_addWatch frame_noNewUser fuel name noteAllEvents false w
+  have h1 := rel_addWatch frame_noNewUser.toAdd fuel name noteAllEvents false w
   cases hr : (addWatch fuel name noteAllEvents false w).1 with
   | error e =>
     rw [hr] at hp
